@@ -1,5 +1,6 @@
 import Varint.Bridge.Tagged
 import Varint.Bridge.CSimple
+import Varint.Bridge.ChainedW
 import Varint.Lemmas.Canon
 import Varint.Lemmas.Spec
 import Varint.Lemmas.Mono
@@ -35,6 +36,14 @@ theorem c_csimple_spec_valid (v : Nat) (hv : v < 2 ^ 64) (fuel : Nat) (hf : 9 â‰
     Varint.Gen.C.csEncode64 fuel v =
       some ((Spec.leb128cap9 v).length, Varint.Bridge.storesFrom 0 (Spec.leb128cap9 v)) := by
   rw [Varint.Bridge.CSimple.csEncode64_eq v fuel hf, csimple_enc_eq_spec v hv]
+
+/-- on the machine translation of `varintChainedPutVarint` / `putVarint64`: the memory the writer leaves is the
+    documented sqlite3 format (big-endian 7-bit groups, full ninth byte), for every 64-bit value -/
+theorem c_chained_spec_valid (v : Nat) (hv : v < 2 ^ 64) (fuel : Nat) (hf : 10 â‰¤ fuel) :
+    âˆƒ stores, Varint.Gen.C.chainedPutVarint fuel v = some ((Spec.chained v).length, stores) âˆ§
+      Varint.Bridge.External.Writes stores (Spec.chained v) := by
+  rw [â† chained_enc_eq_spec v hv]
+  exact Varint.Bridge.ChainedW.chainedPutVarint_eq v fuel hv hf
 
 /-- external: the minimal little- (big-) endian slice: `k` bytes hold `v`, `k-1` would not -/
 theorem ext_spec_valid (v : Nat) :
